@@ -3,7 +3,8 @@
 Correspondence: `parse_allele_filter`, `apply_allele_filter`, `LocusPrior.from_variant_record(frequency_tag=,
 allele_filter=)` (what `--prior-frequencies` / `--filter-input-haplotypes` reach), `GenotypeAllelesMultiTrace.relabel`
 + `posterior_frequencies`, and the ALT / REFMASKED / AFPRIOR / FILTER / GT / AFP / ACP / AOP / GP columns printed by
-`mchap call`, `call-exact`, `call-pedigree` on generated haplotype VCFs, against the Lean model
+`mchap call`, `call-exact`, `call-pedigree` on generated haplotype VCFs and on the real output of `mchap assemble`,
+against the Lean model
 (`MCHap/Model/Loci.lean`: `parseAlleleFilter`, `applyAlleleFilter`, `locusPrior`, `callLabels`, `callScenario`,
 `exactScenario`, `relabel`, `relabelNAllele`, `posteriorCounts`).
 Implementation oracles (independent `Fraction` arithmetic straight from the property statement): AFPRIOR = named INFO
@@ -16,6 +17,7 @@ from __future__ import annotations
 import itertools
 import math
 import os
+import re
 import shutil
 import tempfile
 from decimal import Decimal
@@ -46,7 +48,12 @@ RULE = ("filter strings: field x every operator of the regex (=, ==, >, >=, <, <
         "d.d, .d, d., empty, '.', ',', 'd,d') plus <= 15% malformed (spaces, doubled operators, sign, exponent, trailing newline(s), "
         "non-word field); records: 0..5 ALTs with R-/A-length Float and Integer INFO arrays on a grid with zeros, all-zero vectors, "
         "missing entries, wrong lengths, absent keys, REFMASKED; configurations (frequency tag, filter) with thresholds equal to the "
-        "record's own values; CLI: haplotype VCFs over synthetic BAMs for call / call-exact / call-pedigree. "
+        "record's own values; values include 1e-6 / 1e-42 (float32 denormal) and a literal nan (outside the documented domain: model "
+        "against code only); CLI: generated haplotype VCFs AND the real output of `mchap assemble --report AFP` (AFP / AC fields, "
+        "REFMASKED, records without ALT) over synthetic BAMs (one (sample, locus) without reads) for call / call-exact / call-pedigree "
+        "with alternating --report lists (call-exact with and without GP/GL: full-array and low-memory branch), --inbreeding value / "
+        "file, pedigrees over ploidies 2 and 4 with a --gamete-ploidy file and a member without alignment file; relabel with up to "
+        "200 alleles in the dtypes the samplers produce. "
         "Non-trivial: a record with >= 2 ALTs where the configuration removes or masks at least one allele and keeps at least one. "
         "Distinct by canonical request line / (run, record).")
 
@@ -58,9 +65,14 @@ PYOP = {
     "lt": lambda x, v: x < v, "le": lambda x, v: x <= v, "ne": lambda x, v: x != v,
 }
 OPSYM = {"=": "eq", "==": "eq", ">": "gt", ">=": "ge", "<": "lt", "<=": "le", "!=": "ne"}
-GRID = ["0", "0.125", "0.25", "0.5", "1", "2", "0.1", "0.3", "0.75", "3"]
+GRID = ["0", "0.125", "0.25", "0.5", "1", "2", "0.1", "0.3", "0.75", "3"]      # thresholds (the filter regex has no exponent form)
+# INFO values: the grid plus tiny positive values (1e-42 is below the smallest normal float32: pysam hands back a
+# denormal or 0, the model receives the exact rational of whatever arrives)
+VALUES = GRID + ["1e-6", "1e-42", "0.000001"]
 SIG_F4 = "C16/call/relabel-n-alleles"
 SIG_INT = "C16/locusprior/integer-frequency-field"
+SIG_NOALT = "C16/filter/number-a-no-alt"
+ORDERING = ("gt", "ge", "lt", "le")
 
 
 def hexs(s: str) -> str:
@@ -148,13 +160,17 @@ def gen_values(r, n, integer, allow_missing=True):
     if integer:
         vals = [str(r.choice([0, 0, 1, 2, 3, 5, 10])) for _ in range(n)]
     else:
-        vals = [r.choice(GRID) for _ in range(n)]
+        vals = [r.choice(VALUES) for _ in range(n)]
     if mode < 0.12:
         vals = ["0"] * n
     elif mode < 0.2 and not integer:
         vals = [r.choice(["0", "0", "0.5"]) for _ in range(n)]
     elif mode < 0.24 and not integer and n:
         vals[r.randrange(n)] = "-0.25"
+    elif mode < 0.29 and not integer and n:
+        vals = [r.choice(["0", "1e-42", "1e-6", "1e-42"]) for _ in range(n)]      # nothing but tiny values and zeros
+    elif mode < 0.31 and not integer and n and allow_missing:
+        vals[r.randrange(n)] = "nan"                 # a literal NaN (not the VCF missing value): outside the documented domain
     if allow_missing and n and r.random() < 0.04:
         vals[r.randrange(n)] = "."
     return vals
@@ -212,12 +228,38 @@ def record_tokens(rec) -> list:
             v = rec.info[name]
             if not isinstance(v, tuple):
                 v = (v,)
-            vals = tok_list("." if x is None else C.rat_str(x) for x in v)
+            # a literal NaN is sent as the missing value: both become NaN in `np.array(.., dtype=float)`, are removed by
+            # '=' and kept by '!='; they differ only under an ordering comparison (NaN: False, None: TypeError), which
+            # `nan_ordering` excludes from the model comparison
+            vals = tok_list("." if (x is None or is_nan(x)) else C.rat_str(x) for x in v)
         else:
             vals = "absent"
         fields += [hexs(name), numtok, ty, vals]
     toks.append(str(len(fields) // 4))
     return toks + fields
+
+
+def is_nan(x) -> bool:
+    return isinstance(x, float) and math.isnan(x)
+
+
+def nan_fields(rec) -> set:
+    """names of the INFO fields of a record that hold a literal NaN"""
+    out = set()
+    for name in rec.info.keys():
+        v = rec.info[name]
+        v = v if isinstance(v, tuple) else (v,)
+        if any(is_nan(x) for x in v):
+            out.add(name)
+    return out
+
+
+def nan_ordering(rec, flt) -> bool:
+    """the filter string orders (<, >, <=, >=, <>, ...) against a field of the record that holds a literal NaN"""
+    if flt is None:
+        return False
+    m = re.match(r"^(\w+)(.*)$", flt, re.S)
+    return bool(m) and m.group(1) in nan_fields(rec) and any(c in m.group(2)[:2] for c in "<>")
 
 
 def oracle_prior(rec, tag, flt):
@@ -239,8 +281,11 @@ def oracle_prior(rec, tag, flt):
         if meta is None or meta.number not in ("R", "A"):
             return None
         obs = rec.info.get(field)
+        if obs is not None and meta.number == "A" and n_alts == 0 and all(x is None for x in obs):
+            # a per-ALT field of a record without ALT: '.' is the only way to write it, there is nothing to remove
+            obs = None
         if obs is not None:
-            if any(x is None for x in obs):
+            if any(x is None or is_nan(x) for x in obs):
                 return None
             if len(obs) != (n if meta.number == "R" else n_alts):
                 return None
@@ -258,7 +303,7 @@ def oracle_prior(rec, tag, flt):
         if meta is None or meta.number != "R" or meta.type not in ("Float", "Integer"):
             return None
         obs = rec.info.get(tag)
-        if obs is None or len(obs) != n or any(x is None for x in obs):
+        if obs is None or len(obs) != n or any(x is None or is_nan(x) for x in obs):
             return None
         vals = [Fraction(x) for x in obs]
     if mask:
@@ -288,7 +333,7 @@ def rounding_margin(rec, doc) -> bool:
     lo, hi = min(exact, fl), max(exact, fl)
     obs = rec.info.get(field)
     obs = obs if isinstance(obs, tuple) else (() if obs is None else (obs,))
-    return any(x is not None and lo <= Fraction(x) <= hi for x in obs)
+    return any(x is not None and not is_nan(x) and lo <= Fraction(x) <= hi for x in obs)
 
 
 def scenario_of(o):
@@ -328,6 +373,10 @@ def run(tier, replay=None):
         "the samplers' posterior values are not modelled here (C02/C03); only which entries must be zero / missing",
         "a missing ('.') entry inside an INFO array is outside the property's domain: the model mirrors the code (TypeError for an "
         "ordering comparison, removed by '=', kept by '!=', NaN prior -> AF0 when retained as a frequency) but no oracle judges it",
+        "a literal 'nan' INFO value is outside the property's domain as well (the quantifier speaks of numeric vectors incl. zeros / "
+        "all-zero); the model has no NaN value, so it is sent as the missing value, which the code treats identically except under an "
+        "ordering comparison (NaN: False, None: TypeError) - those configurations are counted, not compared",
+        "a Number=A filter field on a record without ALT can only be written '<field>=.': inside the domain, nothing to remove",
     ])
     chk.prove()
     drv = C.Driver("driver_loci")
@@ -336,6 +385,7 @@ def run(tier, replay=None):
     n_rec = {"warm": 8, "quick": 250, "thorough": 2500}[tier]
     n_cfg = {"warm": 2, "quick": 5, "thorough": 8}[tier]
     n_trace = {"warm": 5, "quick": 120, "thorough": 1200}[tier]
+    n_big = {"warm": 1, "quick": 16, "thorough": 400}[tier]
     work = tempfile.mkdtemp(prefix="verif-c16-")
     try:
         # ================================================================== A. parse_allele_filter
@@ -391,7 +441,7 @@ def run(tier, replay=None):
                         field = r.choice(["PF", "PF", "AX", "AX", "IR", "IA"]) if r.random() < 0.94 else r.choice(["ONE", "DOT", "ZZ"])
                         op = r.choice(OPS if r.random() < 0.1 else DOC_OPS)
                         own = rec.info.get(field) if field in rec.header.info else None
-                        pool = [x for x in (own if isinstance(own, tuple) else ()) if x is not None]
+                        pool = [x for x in (own if isinstance(own, tuple) else ()) if x is not None and not is_nan(x)]
                         val = None
                         if pool and r.random() < 0.6:
                             # a threshold exactly equal to one of the record's own values: the exact decimal expansion of
@@ -418,7 +468,10 @@ def run(tier, replay=None):
                     reqs.append(" ".join(["lp"] + rtoks + ["-" if tag is None else hexs(tag), "-" if flt is None else hexs(flt)]))
                     impls.append(im)
                     orc = oracle_prior(rec, tag, doc) if (flt is None or doc is not None) else None
-                    metas.append((rec.id, rec.ref, alts_in, str(dict(rec.info)), tag, flt, orc, n_alts, rounding_margin(rec, doc)))
+                    noalt = (doc is not None and n_alts == 0 and doc[0] in rec.header.info and rec.header.info[doc[0]].number == "A"
+                             and doc[0] in rec.info)
+                    metas.append((rec.id, rec.ref, alts_in, str(dict(rec.info)), tag, flt, orc, n_alts, rounding_margin(rec, doc),
+                                  nan_ordering(rec, flt), noalt))
                 # apply_allele_filter alone (keep array before the reference is forced)
                 for _ in range(2):
                     field = r.choice(["PF", "AX", "IR", "IA", "ONE", "DOT", "ZZ"])
@@ -432,17 +485,28 @@ def run(tier, replay=None):
                         im = err_tag(e)
                     reqs.append(" ".join(["flt.apply"] + rtoks + [hexs(field), OPSYM[op], C.rat_str(v)]))
                     impls.append(im)
-                    metas.append(None)
+                    metas.append("nan-ordering" if (field in nan_fields(rec) and OPSYM[op] in ORDERING) else None)
         ans = drv.ask(reqs)
         for req, a, im, meta in zip(reqs, ans, impls, metas):
+            if meta == "nan-ordering":
+                # ordering comparison against a literal NaN: not expressible in the model's value type (see record_tokens)
+                chk.count("apply:nan-ordering-not-modelled")
+                continue
             if meta is None:
                 chk.count("apply:" + (im if im.startswith("err") else "ok"))
                 chk.case(req, False)
                 if a != im:
                     chk.disagreement("apply_allele_filter != model", {"request": req, "impl": im, "model": a})
                 continue
-            rid, ref, alts_in, info, tag, flt, orc, n_alts, margin = meta
+            rid, ref, alts_in, info, tag, flt, orc, n_alts, margin, nan_ord, noalt = meta
             case = {"record": rid, "ref": ref, "alts": alts_in, "info": info, "frequency_tag": tag, "allele_filter": flt}
+            if "nan" in info:
+                chk.count("lp:record-with-literal-nan")
+            if nan_ord:
+                chk.count("lp:nan-ordering-not-modelled")
+                continue
+            if noalt:
+                chk.count("lp:number-A-filter-on-record-without-ALT")
             if margin:
                 # an observation lies between the decimal threshold and its float64 rounding: decision boundary inside the
                 # rounding margin (DESIGN App. A) - counted, not compared
@@ -455,10 +519,15 @@ def run(tier, replay=None):
                     chk.disagreement("from_variant_record error != model", {**case, "impl": im, "model": a})
                 if orc is not None:
                     sig = SIG_INT if (orc["integer"] and im in ("err:intDivide", "err:intNan")) else "C16/locusprior/aborts-on-documented-input"
-                    chk.violation("from_variant_record aborts on a record / option combination of the documented shape "
-                                  "(integer INFO field as --prior-frequencies)" if sig == SIG_INT else
-                                  "from_variant_record aborts on a record / option combination of the documented shape",
-                                  {**case, "impl": im}, sig)
+                    what = ("from_variant_record aborts on a record / option combination of the documented shape "
+                            "(integer INFO field as --prior-frequencies)" if sig == SIG_INT else
+                            "from_variant_record aborts on a record / option combination of the documented shape")
+                    if noalt and im == "err:assertion":
+                        sig = SIG_NOALT
+                        what = ("--filter-input-haplotypes on a Number=A field aborts on a record without ALT (the field can only be "
+                                "written '.', pysam returns (None,), `assert len(observations) == n_alts` fails): nothing to remove, "
+                                "the record must be processed with REF kept")
+                    chk.violation(what, {**case, "impl": im}, sig)
                 continue
             chk.count("lp:ok")
             removed = im["keep"].count(False)
@@ -508,40 +577,67 @@ def run(tier, replay=None):
 
         # ================================================================== C. relabel / posterior_frequencies
         reqs, impls, metas = [], [], []
-        for _ in range(n_trace):
-            n = r.randint(1, 6)
-            mask = [r.random() < 0.35 for _ in range(n)]
+        for t in range(n_trace + n_big):
+            big = t >= n_trace
+            if big:
+                # many alleles: labels beyond int8 (the samplers hand over int32 - `greedy_caller` / `mcmc_sampler` - or
+                # int16 - `PedigreeCallingMCMC.fit` - genotypes; the labels come from `np.where`, int64)
+                n = r.choice([7, 20, 64, 127, 128, 129, 130, 200, 200, r.randint(7, 200), r.randint(100, 200)])
+                p_mask = r.choice([0.05, 0.35, 0.8])
+                dtype = r.choice([np.int16, np.int32, np.int32, np.int64])
+                chk.count(f"trace:big-alleles dtype={np.dtype(dtype).name}")
+                if n > 127:
+                    chk.count("trace:more-than-127-alleles")
+            else:
+                n = r.randint(1, 6)
+                p_mask = 0.35
+                dtype = r.choice([np.int8, np.int8, np.int16, np.int32])
+            mask = [r.random() < p_mask for _ in range(n)]
             if r.random() < 0.3:
                 mask[-1] = True
+            if big and r.random() < 0.5:
+                mask[0] = True                       # masked reference
             labels = [i for i in range(n) if not mask[i]]
             if not labels:
                 labels = [r.randrange(n)]
-            ploidy = r.choice([1, 2, 4])
+            ploidy = r.choice([1, 2, 4, 6] if big else [1, 2, 4])
             chains, steps = r.choice([1, 2]), r.randint(1, 4)
-            g = np.array([[[r.randrange(len(labels)) for _ in range(ploidy)] for _ in range(steps)] for _ in range(chains)], dtype=np.int8)
+            top = len(labels) - 1
+            g = np.array([[[top if (big and r.random() < 0.3) else r.randrange(len(labels)) for _ in range(ploidy)]
+                           for _ in range(steps)] for _ in range(chains)], dtype=dtype)
             base = GenotypeAllelesMultiTrace(g, np.zeros((chains, steps)), len(labels))
             flat = [int(x) for x in g.reshape(-1)]
             n_obs = chains * steps
-            # (i) the default of relabel (n_allele = labels.max()+1) against the model's default
-            tr0 = base.relabel(np.array(labels))
-            reqs.append(f"relabel {tok_list(labels)} {tok_list(flat)} -")
-            impls.append(f"{tok_list(int(x) for x in tr0.genotypes.reshape(-1))} {int(tr0.n_allele)}")
-            metas.append(None)
-            # (ii) the program path: relabel(labels, n_allele=<record alleles>) as call.py / call_pedigree.py do
+            tcase = {"record_alleles": n, "labels": labels[:210], "genotype_dtype": str(g.dtype), "genotypes": flat[:60]}
             try:
-                tr = base.relabel(np.array(labels), n_allele=n)
-            except TypeError as e:
-                chk.violation("GenotypeAllelesMultiTrace.relabel cannot be told the record's allele count; the per-allele arrays of a "
-                              "relabelled trace are sized labels.max()+1",
-                              {"record_alleles": n, "labels": labels, "error": repr(e)[:200]}, SIG_F4)
-                tr = tr0
-            fr, counts, occ = tr.posterior_frequencies()
-            rows = [[int(x) for x in row] for row in tr.genotypes.reshape(-1, ploidy)]
+                # (i) the default of relabel (n_allele = labels.max()+1) against the model's default
+                tr0 = base.relabel(np.array(labels))
+                out0 = f"{tok_list(int(x) for x in tr0.genotypes.reshape(-1))} {int(tr0.n_allele)}"
+                # (ii) the program path: relabel(labels, n_allele=<record alleles>) as call.py / call_pedigree.py do
+                try:
+                    tr = base.relabel(np.array(labels), n_allele=n)
+                except TypeError as e:
+                    chk.violation("GenotypeAllelesMultiTrace.relabel cannot be told the record's allele count; the per-allele arrays of a "
+                                  "relabelled trace are sized labels.max()+1",
+                                  {"record_alleles": n, "labels": labels, "error": repr(e)[:200]}, SIG_F4)
+                    tr = tr0
+                fr, counts, occ = tr.posterior_frequencies()
+                rows = [[int(x) for x in row] for row in tr.genotypes.reshape(-1, ploidy)]
+                out1 = f"{tok_list(int(x) for x in tr.genotypes.reshape(-1))} {int(tr.n_allele)}"
+                cnts = [float(c) * n_obs for c in counts]
+                out2 = tok_list(int(round(c)) if math.isfinite(c) else "nan" for c in cnts)
+            except Exception as e:   # noqa: BLE001
+                chk.violation("relabel / posterior_frequencies abort on a trace of valid allele indices",
+                              {**tcase, "error": repr(e)[:300]}, "C16/relabel/aborts")
+                continue
+            reqs.append(f"relabel {tok_list(labels)} {tok_list(flat)} -")
+            impls.append(out0)
+            metas.append(None)
             reqs.append(f"relabel {tok_list(labels)} {tok_list(flat)} {n}")
-            impls.append(f"{tok_list(int(x) for x in tr.genotypes.reshape(-1))} {int(tr.n_allele)}")
+            impls.append(out1)
             metas.append(None)
             reqs.append(f"postcounts {int(tr.n_allele)} {'|'.join(tok_list(x) for x in rows)}")
-            impls.append(tok_list(int(round(float(c) * n_obs)) for c in counts))
+            impls.append(out2)
             metas.append((n, labels, rows, [float(x) for x in counts], [float(x) for x in fr], [float(x) for x in occ]))
         ans = drv.ask(reqs)
         for req, a, im, meta in zip(reqs, ans, impls, metas):
@@ -553,8 +649,10 @@ def run(tier, replay=None):
                 n, labels, rows, counts, fr, occ = meta
                 if any(x not in labels for row in rows for x in row):
                     chk.violation("a relabelled genotype contains a masked allele", {"labels": labels, "rows": rows}, "C16/relabel/masked-allele")
-                if any(c != 0 for i, c in enumerate(counts) if i not in labels):
-                    chk.violation("a masked allele has a non-zero posterior count", {"labels": labels, "counts": counts}, "C16/relabel/masked-posterior")
+                lset = set(labels)
+                if any(c != 0 for arr in (counts, fr, occ) for i, c in enumerate(arr) if i not in lset):
+                    chk.violation("a masked allele has a non-zero posterior count / frequency / occurrence",
+                                  {"labels": labels, "counts": counts, "frequencies": fr, "occurrence": occ}, "C16/relabel/masked-posterior")
                 if (n - 1) not in labels:
                     chk.count("trace:last-allele-masked")
                 if not (len(counts) == len(fr) == len(occ) == n):
@@ -588,6 +686,7 @@ def hap_string(ds, l, vec):
 def gen_hap_records(r, ds, per_locus):
     """haplotype-VCF record lines (several per locus, different ALT sets and INFO vectors)"""
     recs = []
+    serial = 0
     for l in ds.loci:
         ref = ds.contigs[l.contig][l.start:l.stop]
         true = set()
@@ -597,6 +696,7 @@ def gen_hap_records(r, ds, per_locus):
                     true.add(h)
         space = list(itertools.product(*[range(len(a)) for a in l.snv_alleles])) if l.snv_positions else []
         for k in range(per_locus):
+            serial += 1
             pool = sorted(true)
             extra = [hap_string(ds, l, v) for v in r.sample(space, min(len(space), 4))] if space else []
             cand = [h for h in dict.fromkeys(pool + extra) if h != ref]
@@ -605,6 +705,7 @@ def gen_hap_records(r, ds, per_locus):
             alts = cand[:n_alts]
             n = n_alts + 1
             mode = r.random()
+            mode = {2: 0.6, 4: 0.65, 5: 0.72}.get(serial, mode)      # every dataset has the tiny-value and the NaN shapes
             pf = [r.choice(["0", "0.125", "0.25", "0.25", "0.5", "1", "2"]) for _ in range(n)]
             if mode < 0.08:
                 pf = ["0"] * n
@@ -616,6 +717,12 @@ def gen_hap_records(r, ds, per_locus):
             elif mode < 0.55 and n >= 2:
                 pf[-1] = "0"                     # the highest-numbered allele has zero prior (relabel's n_allele)
                 pf[0] = "0.5"
+            elif mode < 0.63:
+                pf = [r.choice(["1e-6", "1e-42", "0", "1e-42", "0.000001"]) for _ in range(n)]     # nothing but tiny values / zeros
+            elif mode < 0.7:
+                pf[r.randrange(n)] = r.choice(["1e-6", "1e-42"])                                  # a tiny value next to ordinary ones
+            elif mode < 0.74:
+                pf[r.randrange(n)] = "nan"       # a literal NaN: outside the documented domain (model against code only)
             items = [f"PF={','.join(pf)}"]
             if n_alts:
                 items.append("AX=" + ",".join(r.choice(["0", "0.125", "0.25", "0.5", "1"]) for _ in range(n_alts)))
@@ -636,82 +743,204 @@ def hap_vcf_text(ds, lines):
     return "\n".join(hdr + lines) + "\n"
 
 
+# --report lists. FULL: GP and / or GL requested -> call-exact computes the whole posterior array; LOWMEM: neither -> call-exact
+# takes the low-memory `posterior_mode` branch. The oracles of check_out_record only look at the fields that are present.
+REPORT_ALL = ["AFPRIOR", "AFP", "ACP", "AOPSUM", "GP", "AOP"]
+REPORTS_FULL = [REPORT_ALL, ["AFPRIOR", "GL", "AFP", "AOP"], ["AFPRIOR", "GP"], ["GP", "GL", "FORMAT/ACP", "INFO/AOP"],
+                ["AFPRIOR", "AFP", "ACP", "AOPSUM", "GP", "AOP", "GL"]]
+REPORTS_LOWMEM = [["AFPRIOR", "AFP", "ACP", "AOP"], ["AFPRIOR", "INFO/AFP", "FORMAT/AOP", "AOPSUM"], ["AFPRIOR"],
+                  ["AFP", "FORMAT/ACP", "AOP"], ["AFPRIOR", "ACP", "AOPSUM", "AOP", "AFP"], []]
+GHOST = "NOBAM"        # pedigree member listed only in the --sample-parents file
+
+
+def pick_report(r, low):
+    return list(r.choice(REPORTS_LOWMEM if low else REPORTS_FULL))
+
+
+def pedigree_files(r, ds, dsdir, S):
+    """--sample-parents / --gamete-ploidy / --ploidy files of a valid pedigree over the dataset's samples (any mix of
+    ploidies 2 and 4) plus one member WITHOUT alignment file (it exists only in the pedigree file; `parse_pedigree_arguments`
+    appends it as a sample without reads, so it needs a ploidy and is an output column).
+    A gamete never has more copies than its parent; a tetraploid child gets two diploid gametes (unreduced when the
+    parent is diploid), a diploid child two haploid ones; founders get the halves of their own ploidy."""
+    a, b, c = r.sample(list(ds.samples), 3) if len(ds.samples) >= 3 else (list(ds.samples) * 3)[:3]
+    pl = dict(ds.ploidy)
+    pl[GHOST] = r.choice([2, 4])
+    shape = r.choice(["ungenotyped-parent", "ungenotyped-parent", "ungenotyped-child", "ungenotyped-founder-of-two"])
+    if shape == "ungenotyped-parent":
+        par = {a: (".", "."), GHOST: (".", "."), c: (a, GHOST), b: (".", ".")}
+    elif shape == "ungenotyped-child":
+        par = {a: (".", "."), b: (".", "."), c: (a, b), GHOST: (c, r.choice([".", a]))}
+    else:
+        par = {GHOST: (".", "."), a: (".", "."), b: (GHOST, a), c: (a, GHOST)}
+    order = list(par)
+    r.shuffle(order)                                  # neither file relies on parents preceding children
+    ped = S.write_text(os.path.join(dsdir, "ped.txt"), "".join(f"{s}\t{par[s][0]}\t{par[s][1]}\n" for s in order))
+    tau = S.write_text(os.path.join(dsdir, "tau.txt"), "".join(f"{s}\t{pl[s] // 2}\t{pl[s] - pl[s] // 2}\n" for s in reversed(order)))
+    ploidy = S.write_text(os.path.join(dsdir, "ploidy_ped.txt"), open(ds.ploidy_file).read() + f"{GHOST}\t{pl[GHOST]}\n")
+    return {"ped": ped, "tau": tau, "ploidy": ploidy, "shape": shape, "ploidies": sorted(set(pl.values())),
+            "columns": list(ds.samples) + [GHOST]}
+
+
+class CliRuns:
+    """one dataset after the other: split the records of a configuration into runs, run the program, apply the oracles"""
+
+    def __init__(self, chk, drv, r, S, pysam):
+        self.chk, self.drv, self.r, self.S, self.pysam = chk, drv, r, S, pysam
+        self.pend = []      # (request, key, out_record) for the model comparison
+        self.mcmc = ["--mcmc-steps", "100", "--mcmc-burn", "40"]
+
+    def run_config(self, d, ds, dsdir, name, header, recs, prog, tag, flt, report, source, ped=None, inbreeding=None):
+        chk, S = self.chk, self.S
+        fstr = "".join(flt) if flt else None
+        orcs = [oracle_prior(rec, tag, flt) for rec in recs]
+        parts = {"main": [], "f4": [], "noalt": [], "ood": []}
+        for i, (rec, o) in enumerate(zip(recs, orcs)):
+            n_alts = len(rec.alts) if rec.alts else 0
+            if o is None:
+                # outside the documented domain (a literal NaN, a missing entry): model against code only, and only where
+                # the model can express the input and does not predict an abort (those are compared in section B)
+                if nan_ordering(rec, fstr):
+                    chk.count("cli:out-of-domain-record-not-run(nan-ordering)")
+                    continue
+                a = self.drv.ask1(" ".join(["lp"] + record_tokens(rec) + ["-" if tag is None else hexs(tag), "-" if fstr is None else hexs(fstr)]))
+                if a.startswith("err"):
+                    chk.count("cli:out-of-domain-record-not-run(model-predicts-abort)")
+                    continue
+                parts["ood"].append(i)
+                continue
+            meta = rec.header.info.get(flt[0]) if flt else None
+            if meta is not None and meta.number == "A" and n_alts == 0 and flt[0] in rec.info:
+                # Number=A filter field on a record without ALT ('AC=.'): run apart, an abort here has its own signature
+                parts["noalt"].append(i)
+                continue
+            # records whose highest-numbered retained allele is masked / has zero prior (where the per-allele arrays
+            # depend on relabel's n_allele) are run separately, so that an abort there cannot hide the other records
+            scen, usable = scenario_of(o)
+            n = len(o["raw"])
+            trigger = prog != "call-exact" and scen == "valid" and len(usable) < n and (n - 1) not in usable
+            parts["f4" if trigger else "main"].append(i)
+        for part, idx in parts.items():
+            if not idx:
+                continue
+            gz = S.bgzip_tabix_vcf(S.write_text(os.path.join(dsdir, f"{name}.{part}.vcf"), header + "".join(lines_of(recs[i]) + "\n" for i in idx)))
+            with self.pysam.VariantFile(gz) as f:
+                inputs = list(f.fetch())               # exactly what the program is going to read
+            if len(inputs) != len(idx):
+                raise C.Infra("pysam does not read back the generated haplotype records")
+            extra = []
+            if prog != "call-exact":
+                extra += self.mcmc
+            if report:
+                extra += ["--report"] + list(report)
+            if ped is not None and prog == "call-pedigree":
+                extra += ["--sample-parents", ped["ped"], "--gamete-ploidy", ped["tau"]]
+            if inbreeding is not None and prog != "call-pedigree":
+                extra += ["--inbreeding", inbreeding]
+            if tag:
+                extra += ["--prior-frequencies", tag]
+            if flt:
+                extra += ["--filter-input-haplotypes", fstr]
+            argv = ds.call_argv(prog, gz, *extra)
+            if ped is not None and prog == "call-pedigree":
+                argv[argv.index("--ploidy") + 1] = ped["ploidy"]
+            key0 = {"dataset": d, "source": source, "program": prog, "frequency_tag": tag, "filter": fstr, "part": part,
+                    "report": " ".join(report)}
+            chk.breadcrumb("mchap " + prog, {**key0, "argv_tail": extra})
+            out, code, err = S.run_program(argv)
+            chk.count(f"cli:{prog}:{part}-runs")
+            chk.count(f"cli:{prog}:{source}-runs")
+            chk.count(f"cli:{prog}:report " + ("GP/GL" if any(x.split("/")[-1] in ("GP", "GL") for x in report) else "without GP and GL")
+                      + ("" if any(x.split("/")[-1] in ("AFP", "ACP", "AOP", "AOPSUM") for x in report) else ", no posterior allele array"))
+            if inbreeding is not None and prog != "call-pedigree":
+                chk.count("cli:--inbreeding " + ("file" if os.path.exists(inbreeding) else "value"))
+            if code != 0:
+                in_lines = [lines_of(x)[:300] for x in inputs]
+                case = {**key0, "error": err[:600], "input_records": in_lines[:6], "argv_tail": extra}
+                if part == "ood":
+                    chk.disagreement(f"mchap {prog} aborted on records (outside the documented domain) that the model accepts", case)
+                elif part == "noalt":
+                    chk.violation(f"mchap {prog} --filter-input-haplotypes '{fstr}' (Number=A field) aborts on a record without ALT "
+                                  f"({flt[0]}=.): nothing to remove, the record must be processed with REF kept", case, SIG_NOALT)
+                else:
+                    chk.violation(f"mchap {prog} aborted", case, SIG_F4 if part == "f4" else f"C16/cli/{prog}-abort")
+                continue
+            _, outs = S.parse_vcf_text(out)
+            if len(outs) != len(idx):
+                chk.violation(f"mchap {prog} printed {len(outs)} records for {len(idx)} input records", key0, f"C16/cli/{prog}-record-count")
+                continue
+            for rec, o_rec in zip(inputs, outs):
+                orc = oracle_prior(rec, tag, flt)
+                pv = rec.info.get(tag, ()) if tag else ()
+                pv = pv if isinstance(pv, tuple) else (pv,)
+                if any(isinstance(x, float) and 0 < x < 1e-5 for x in pv):
+                    chk.count("cli:prior with a tiny positive value (<1e-5)")
+                if any(isinstance(x, float) and 0 < x < 1.1754943508222875e-38 for x in pv):
+                    chk.count("cli:prior with a float32-denormal value")
+                if any(is_nan(x) for x in pv):
+                    chk.count("cli:prior with a literal NaN")
+                if ped is not None and prog == "call-pedigree" and o_rec["sample_names"] != ped["columns"]:
+                    chk.violation("call-pedigree: the sample columns are not the samples of the run followed by the pedigree member "
+                                  "without alignment file", {**key0, "columns": o_rec["sample_names"], "expected": ped["columns"]},
+                                  "C16/cli/call-pedigree-columns")
+                if orc is not None:
+                    check_out_record(chk, key0, prog, rec, orc, o_rec, part, ds)
+                else:
+                    chk.count("cli:out-of-domain-record(model only)")
+                    chk.case({"seed": C.seed(), **key0, "record": rec.id}, False)
+                self.pend.append((" ".join(["lp"] + record_tokens(rec) + ["-" if tag is None else hexs(tag), "-" if fstr is None else hexs(fstr)]),
+                                  {**key0, "record": rec.id}, o_rec))
+
+
 def cli(chk, drv, r, tier, work, S, pysam):
     n_sets = {"warm": 1, "quick": 2, "thorough": 8}[tier]
-    mcmc = ["--mcmc-steps", "100", "--mcmc-burn", "40"]
-    report = ["--report", "AFPRIOR", "AFP", "ACP", "AOPSUM", "GP"]
-    pend = []      # (request, key, out_record, oracle) for the model comparison
+    n_asm = {"warm": 1, "quick": 10, "thorough": 18}[tier]            # configurations per assemble output
+    n_asm_sets = {"warm": 1, "quick": 1, "thorough": 4}[tier]
+    runs = CliRuns(chk, drv, r, S, pysam)
+    mcmc = runs.mcmc
     for d in range(n_sets):
         pedigree = d % 2 == 1
         dsdir = os.path.join(work, f"ds{d}")
-        ds = S.make_dataset(r, dsdir, n_samples=3, n_loci=3, ploidies=(r.choice([2, 4]),) if pedigree else (2, 4),
-                            max_snvs=3, depth=(6, 14))
+        # even datasets: one (sample, locus) pair without any read; odd ones: a pedigree with both ploidies
+        ds = S.make_dataset(r, dsdir, n_samples=3, n_loci=3, ploidies=(2, 4), max_snvs=3, depth=(6, 14),
+                            features=frozenset() if pedigree else frozenset({"nodepth"}))
+        if ds.nodepth:
+            chk.count("cli:dataset with a zero-read (sample, locus)")
+        ped = pedigree_files(r, ds, dsdir, S)
+        chk.count(f"cli:pedigree shape={ped['shape']} ploidies={ped['ploidies']}")
+        inb_file = S.write_text(os.path.join(dsdir, "inbreeding.txt"),
+                                "".join(f"{s}\t{r.choice(['0.0', '0.1', '0.25', '0.5'])}\n" for s in reversed(ds.samples)))
         lines = gen_hap_records(r, ds, per_locus=3)
-        all_txt = S.write_text(os.path.join(dsdir, "haps.vcf"), hap_vcf_text(ds, lines))
-        all_gz = S.bgzip_tabix_vcf(all_txt)
+        header = hap_vcf_text(ds, [])
+        all_gz = S.bgzip_tabix_vcf(S.write_text(os.path.join(dsdir, "haps.vcf"), hap_vcf_text(ds, lines)))
+
+        def rnd_filter():
+            field = r.choice(["PF", "AX", "IR"])
+            op = r.choice([">", ">", ">=", ">=", "!=", "<", "<=", "="])
+            if op in (">", ">=", "!="):
+                val = r.choice(["0", "0.125", "0.25"]) if field != "IR" else r.choice(["0", "1"])
+            else:
+                val = r.choice(["0.25", "0.5", "1", "2"]) if field != "IR" else r.choice(["1", "2", "5"])
+            return (field, op, val)
+
+        def rnd_inbreeding():
+            u = r.random()
+            return None if u < 0.4 else (r.choice(["0.1", "0.25", "0.9"]) if u < 0.7 else inb_file)
+
         with pysam.VariantFile(all_gz) as f:
             recs = list(f.fetch())
-            # configurations: (program, frequency tag, documented filter components)
-            def rnd_filter():
-                field = r.choice(["PF", "AX", "IR"])
-                op = r.choice([">", ">", ">=", ">=", "!=", "<", "<=", "="])
-                if op in (">", ">=", "!="):
-                    val = r.choice(["0", "0.125", "0.25"]) if field != "IR" else r.choice(["0", "1"])
-                else:
-                    val = r.choice(["0.25", "0.5", "1", "2"]) if field != "IR" else r.choice(["1", "2", "5"])
-                return (field, op, val)
-            ped = S.write_text(os.path.join(dsdir, "ped.txt"), f"{ds.samples[0]}\t.\t.\n{ds.samples[1]}\t.\t.\n"
-                                                                   f"{ds.samples[2]}\t{ds.samples[0]}\t{ds.samples[1]}\n")
+            # configurations: (program, frequency tag, documented filter components, report list)
             if pedigree:
-                configs = [("call-pedigree", "PF", rnd_filter()), ("call-pedigree", None, rnd_filter()), ("call", "PF", None),
-                           ("call-exact", "PF", rnd_filter())]
+                configs = [("call-pedigree", "PF", rnd_filter(), REPORT_ALL), ("call-pedigree", None, rnd_filter(), pick_report(r, r.random() < 0.5)),
+                           ("call", "PF", None, pick_report(r, r.random() < 0.5)), ("call-exact", "PF", rnd_filter(), pick_report(r, True)),
+                           ("call-pedigree", "PF", rnd_filter(), pick_report(r, True))]
             else:
-                configs = [("call-exact", "PF", rnd_filter()), ("call-exact", "PF", None), ("call-exact", None, rnd_filter()),
-                           ("call", "PF", rnd_filter()), ("call", None, ("PF", ">", "0"))]
-            for ci, (prog, tag, flt) in enumerate(configs):
-                orcs = [oracle_prior(rec, tag, flt) for rec in recs]
-                if any(o is None for o in orcs):
-                    raise C.Infra("generated CLI record outside the documented domain")
-                # records whose highest-numbered retained allele is masked / has zero prior (where the per-allele arrays
-                # depend on relabel's n_allele) are run separately, so that an abort there cannot hide the other records
-                main_idx, f4_idx = [], []
-                for i, o in enumerate(orcs):
-                    scen, usable = scenario_of(o)
-                    n = len(o["raw"])
-                    trigger = prog != "call-exact" and scen == "valid" and len(usable) < n and (n - 1) not in usable
-                    (f4_idx if trigger else main_idx).append(i)
-                for part, idx in (("main", main_idx), ("f4", f4_idx)):
-                    if not idx:
-                        continue
-                    gz = S.bgzip_tabix_vcf(S.write_text(os.path.join(dsdir, f"cfg{ci}.{part}.vcf"), hap_vcf_text(ds, [lines_of(recs[i]) for i in idx])))
-                    extra = list(report) + ["AOP"]
-                    if prog != "call-exact":
-                        extra = mcmc + extra
-                    if prog == "call-pedigree":
-                        extra += ["--sample-parents", ped]
-                    if tag:
-                        extra += ["--prior-frequencies", tag]
-                    if flt:
-                        extra += ["--filter-input-haplotypes", "".join(flt)]
-                    argv = ds.call_argv(prog, gz, *extra)
-                    out, code, err = S.run_program(argv)
-                    chk.count(f"cli:{prog}:{part}-runs")
-                    key0 = {"dataset": d, "program": prog, "frequency_tag": tag, "filter": "".join(flt) if flt else None, "part": part}
-                    if code != 0:
-                        in_lines = [lines_of(recs[i]) for i in idx]
-                        chk.violation(f"mchap {prog} aborted", {**key0, "error": err[:600], "input_records": in_lines[:6],
-                                                                 "argv_tail": extra},
-                                      SIG_F4 if part == "f4" else f"C16/cli/{prog}-abort")
-                        continue
-                    _, outs = S.parse_vcf_text(out)
-                    if len(outs) != len(idx):
-                        chk.violation(f"mchap {prog} printed {len(outs)} records for {len(idx)} input records", key0, f"C16/cli/{prog}-record-count")
-                        continue
-                    for i, o_rec in zip(idx, outs):
-                        check_out_record(chk, key0, prog, recs[i], orcs[i], o_rec, part, ds)
-                        pend.append((" ".join(["lp"] + record_tokens(recs[i]) + ["-" if tag is None else hexs(tag),
-                                                                                  "-" if flt is None else hexs("".join(flt))]),
-                                     {**key0, "record": recs[i].id}, o_rec, orcs[i]))
+                configs = [("call-exact", "PF", rnd_filter(), REPORT_ALL), ("call-exact", "PF", None, pick_report(r, True)),
+                           ("call-exact", None, rnd_filter(), pick_report(r, True)), ("call-exact", "PF", rnd_filter(), pick_report(r, False)),
+                           ("call", "PF", rnd_filter(), REPORT_ALL), ("call", None, ("PF", ">", "0"), pick_report(r, r.random() < 0.5))]
+            for ci, (prog, tag, flt, report) in enumerate(configs):
+                runs.run_config(d, ds, dsdir, f"cfg{ci}", header, recs, prog, tag, flt, report, "generated", ped=ped,
+                                inbreeding=rnd_inbreeding() if ci > 0 else None)
             # ---- probes of the two known crash sites (one record each)
             if d == 0:
                 l = next((x for x in ds.loci if x.snv_positions), None)
@@ -736,8 +965,45 @@ def cli(chk, drv, r, tier, work, S, pysam):
                         chk.case({"probe": what, "seed": C.seed()}, True)
                         if code != 0:
                             chk.violation(what, {"record": line, "argv_tail": extra, "error": err[:500]}, sig)
+    # ---- the REAL output of `mchap assemble --report AFP` as the haplotype VCF: REFMASKED records, records without ALT
+    #      (AC=., AFP=1), AFP of a masked reference = 0, ALTs with AC=0, AC Integer Number=A, AFP Float Number=R
+    for k in range(n_asm_sets):
+        d = f"asm{k}"
+        dsdir = os.path.join(work, d)
+        ds = S.make_dataset(r, dsdir, n_samples=3, n_loci={"warm": 3}.get(tier, 6), ploidies=(2, 4), max_snvs=3, depth=(6, 14),
+                            features=frozenset({"nodepth"}))
+        ped = pedigree_files(r, ds, dsdir, S)
+        chk.count(f"cli:pedigree shape={ped['shape']} ploidies={ped['ploidies']}")
+        chk.count("cli:dataset with a zero-read (sample, locus)", len(ds.nodepth))
+        inb_file = S.write_text(os.path.join(dsdir, "inbreeding.txt"),
+                                "".join(f"{s}\t{r.choice(['0.0', '0.1', '0.25', '0.5'])}\n" for s in reversed(ds.samples)))
+        argv = ds.assemble_argv("--mcmc-steps", "200", "--mcmc-burn", "100", "--report", "AFP")
+        chk.breadcrumb("mchap assemble", {"dataset": d, "argv": argv[-6:]})
+        out, code, err = S.run_program(argv)
+        if code != 0:
+            raise RuntimeError(f"mchap assemble cannot be run on the synthetic dataset (dataset {d}, seed {C.seed()}): {err[:400]}")
+        asm_gz = S.bgzip_tabix_vcf(S.write_text(os.path.join(dsdir, "assemble.vcf"), out))
+        with pysam.VariantFile(asm_gz) as f:
+            a_header = str(f.header)
+            a_recs = list(f.fetch())
+            for rec in a_recs:
+                chk.count("cli:assemble-record " + ("REFMASKED " if "REFMASKED" in rec.info else "") + ("without ALT" if not rec.alts else "with ALT"))
+            a_cfgs = [(p, t, fl) for p in ("call-exact", "call", "call-pedigree")
+                      for t, fl in (("AFP", ("AFP", ">", "0.05")), ("AFP", ("AC", ">", "0")), (None, ("AC", ">=", "2")),
+                                    ("AFP", None), ("AFP", ("AFP", ">=", "0.25")), (None, ("AFP", "<", "0.3")))]
+            # every program with 'AFP>0.05' and with 'AC>0', then a sample of the rest
+            head = [c for c in a_cfgs if c[2] in (("AFP", ">", "0.05"), ("AC", ">", "0"))]
+            rest = [c for c in a_cfgs if c not in head]
+            r.shuffle(rest)
+            for ci, (prog, tag, flt) in enumerate((head + rest)[:n_asm]):
+                low = prog == "call-exact" and ci % 2 == 1
+                report = pick_report(r, low) if (ci >= 6 or low) else REPORT_ALL
+                u = r.random()
+                runs.run_config(d, ds, dsdir, f"cfg{ci}", a_header, a_recs, prog, tag, flt, report, "assemble-output", ped=ped,
+                                inbreeding=None if u < 0.4 else (r.choice(["0.1", "0.25", "0.9"]) if u < 0.7 else inb_file))
+    pend = runs.pend
     ans = drv.ask([p[0] for p in pend])
-    for (req, key, o_rec, orc), a in zip(pend, ans):
+    for (req, key, o_rec), a in zip(pend, ans):
         parts = a.split(" ")
         if parts[0].startswith("err"):
             chk.disagreement("CLI accepted a record the model rejects", {**key, "model": a})
@@ -747,7 +1013,6 @@ def cli(chk, drv, r, tier, work, S, pysam):
         m_fr = None if parts[3] == "nan" else [float(C.parse_rat(x)) for x in parts[3].split(",")]
         m_labels = [] if parts[4] == "~" else [int(x) for x in parts[4].split(",")]
         m_scen = parts[6] if key["program"] == "call-exact" else parts[5]
-        in_alts = list_alts(o_rec, orc)
         bad = []
         if m_keep.count(True) - 1 != len(o_rec["ALT"]):
             bad.append("ALT count")
@@ -756,12 +1021,13 @@ def cli(chk, drv, r, tier, work, S, pysam):
         filt = o_rec["FILTER"]
         if {"valid": "PASS", "NOA": "NOA", "AF0": "AF0"}[m_scen] != filt:
             bad.append("FILTER")
-        pri = floats_of(o_rec["INFO"].get("AFPRIOR", "."))
-        if m_fr is None:
-            if not all(math.isnan(x) for x in pri):
-                bad.append("AFPRIOR nan")
-        elif len(pri) != len(m_fr) or any(not (abs(x - y) <= 6e-4) for x, y in zip(pri, m_fr)):
-            bad.append("AFPRIOR")
+        if "AFPRIOR" in o_rec["INFO"]:
+            pri = floats_of(o_rec["INFO"]["AFPRIOR"])
+            if m_fr is None:
+                if not all(math.isnan(x) for x in pri):
+                    bad.append("AFPRIOR nan")
+            elif len(pri) != len(m_fr) or any(not (abs(x - y) <= 6e-4) for x, y in zip(pri, m_fr)):
+                bad.append("AFPRIOR")
         if m_scen == "valid":
             m_n = int(parts[8])
             for smp in o_rec["samples"]:
@@ -778,10 +1044,6 @@ def cli(chk, drv, r, tier, work, S, pysam):
 def lines_of(rec) -> str:
     """the VCF text line of a pysam record of the generated haplotype VCF (8 columns)"""
     return str(rec).rstrip("\n")
-
-
-def list_alts(o_rec, orc):
-    return o_rec["ALT"]
 
 
 def check_out_record(chk, key0, prog, rec, orc, o, part, ds):
@@ -808,11 +1070,15 @@ def check_out_record(chk, key0, prog, rec, orc, o, part, ds):
     if (o["INFO"].get("REFMASKED") is True) != orc["mask"]:
         chk.violation(f"{prog}: REFMASKED differs from (input flag or failing reference)",
                       {**key, "out": o["INFO"].get("REFMASKED"), "expected": orc["mask"]}, "C16/cli/refmasked")
-    pri = floats_of(o["INFO"].get("AFPRIOR", "."))
-    if orc["freqs"] is None:
-        okp = all(math.isnan(x) for x in pri)
+    if "AFPRIOR" in o["INFO"]:
+        chk.count("cli:AFPRIOR-compared")
+        pri = floats_of(o["INFO"]["AFPRIOR"])
+        if orc["freqs"] is None:
+            okp = all(math.isnan(x) for x in pri)
+        else:
+            okp = len(pri) == n and not any(not (abs(x - float(y)) <= 6e-4) for x, y in zip(pri, orc["freqs"]))
     else:
-        okp = len(pri) == n and all(abs(x - float(y)) <= 6e-4 for x, y in zip(pri, orc["freqs"]))
+        okp = True
     if not okp:
         chk.violation(f"{prog}: AFPRIOR is not the named INFO values normalised over the retained alleles",
                       {**key, "out": o["INFO"].get("AFPRIOR"), "expected": None if orc["freqs"] is None else [str(x) for x in orc["freqs"]]},
